@@ -14,6 +14,7 @@ package compare
 
 import (
 	"fmt"
+	"math"
 	"strings"
 )
 
@@ -143,7 +144,7 @@ func compare[T int | int32 | int64 | int16 | int8 | uint | uint32 | uint64 | uin
 	switch t := v.(type) {
 	case int, int32, int64, int16, int8, uint, uint32, uint64, uint16, byte, float32, float64:
 		{
-			return Cmp(a, t)
+			return compareNumbers(a, t)
 		}
 	case string:
 		{
@@ -151,4 +152,112 @@ func compare[T int | int32 | int64 | int16 | int8 | uint | uint32 | uint64 | uin
 		}
 	}
 	return strings.Compare(fmt.Sprintf("%v", a), fmt.Sprintf("%v", v))
+}
+
+// number holds a numeric value of any supported type without loss:
+// signed and unsigned integers keep all 64 bits, floats stay floats.
+type number struct {
+	kind byte // 'i' signed, 'u' unsigned, 'f' float
+	i    int64
+	u    uint64
+	f    float64
+}
+
+func numberOf(v any) number {
+	switch t := v.(type) {
+	case int:
+		return number{kind: 'i', i: int64(t)}
+	case int64:
+		return number{kind: 'i', i: t}
+	case int32:
+		return number{kind: 'i', i: int64(t)}
+	case int16:
+		return number{kind: 'i', i: int64(t)}
+	case int8:
+		return number{kind: 'i', i: int64(t)}
+	case uint:
+		return number{kind: 'u', u: uint64(t)}
+	case uint64:
+		return number{kind: 'u', u: t}
+	case uint32:
+		return number{kind: 'u', u: uint64(t)}
+	case uint16:
+		return number{kind: 'u', u: uint64(t)}
+	case uint8:
+		return number{kind: 'u', u: uint64(t)}
+	case float32:
+		return number{kind: 'f', f: float64(t)}
+	case float64:
+		return number{kind: 'f', f: t}
+	}
+	return number{kind: 'i'}
+}
+
+func order[T int64 | uint64 | float64](a, b T) int {
+	if a < b {
+		return -1
+	}
+	if a > b {
+		return 1
+	}
+	return 0
+}
+
+// compareNumbers compares two numeric values of possibly different
+// types by their mathematical value instead of converting one operand
+// to the type of the other, which truncates fractions and wraps
+// negative values into unsigned types.
+func compareNumbers(a, b any) int {
+	x, y := numberOf(a), numberOf(b)
+	switch {
+	case x.kind == 'f' && y.kind == 'f':
+		return order(x.f, y.f)
+	case x.kind == 'f':
+		return -compareIntFloat(y, x.f)
+	case y.kind == 'f':
+		return compareIntFloat(x, y.f)
+	case x.kind == 'i' && y.kind == 'i':
+		return order(x.i, y.i)
+	case x.kind == 'u' && y.kind == 'u':
+		return order(x.u, y.u)
+	case x.kind == 'i':
+		if x.i < 0 {
+			return -1
+		}
+		return order(uint64(x.i), y.u)
+	default:
+		if y.i < 0 {
+			return 1
+		}
+		return order(x.u, uint64(y.i))
+	}
+}
+
+func compareIntFloat(n number, f float64) int {
+	if math.IsNaN(f) {
+		return -1
+	}
+	// 2^64 and -2^63 bound every integer value
+	if f >= 18446744073709551616.0 {
+		return -1
+	}
+	if f < -9223372036854775808.0 {
+		return 1
+	}
+	whole := math.Floor(f)
+	var c int
+	switch {
+	case n.kind == 'u' && whole < 0:
+		return 1
+	case n.kind == 'u':
+		c = order(n.u, uint64(whole))
+	case whole >= 9223372036854775808.0:
+		return -1
+	default:
+		c = order(n.i, int64(whole))
+	}
+	if c == 0 && f > whole {
+		return -1
+	}
+	return c
 }
